@@ -18,6 +18,7 @@ mod net;
 mod puppet;
 mod result;
 mod scen_cluster;
+mod scen_hostile;
 mod scen_puppet;
 mod world;
 
@@ -61,6 +62,7 @@ fn main() {
         let seed = seed0 + k;
         match workload.as_str() {
             "cluster" => scen_cluster::run(&class, seed, &params).print(),
+            "hostile" => scen_hostile::run(&class, seed, &params).print(),
             "puppet" => scen_puppet::run(&class, seed, &params).print(),
             "c11" | "c12" => comp_mempool::run(&workload, &class, seed, &params).print(),
             "c14" => comp_sender::run(&class, seed, &params).print(),
